@@ -24,6 +24,14 @@ def check(cx):
     free = Not(has(USERS, NEW))
     G = And(auth, differs, free)
     effs = [(e, x) for e, x in effects(w, prog) if x['op'] not in ('get_mut', 'take')]
+    # equal strings are equal ignoring case (a guard written with eq_ignore_ascii_case is weaker than `!=`, not unrelated to it)
+    AX = T
+    for e in w.events:
+        for a in atoms(e.pc):
+            if a[0] in ('call', 'truth') and 'eq_ignore_ascii_case' in repr(a):
+                c_ = a if a[0] == 'call' else a[1]
+                if isinstance(c_, tuple) and c_[:1] == ('call',) and len(c_) == 4:
+                    AX = And(AX, Or(Not(sym.mk_eq(c_[2], c_[3])), Atom(a)))
 
     r1 = cx.rule('R15.1', 'effects guarded by "new nick is free"', floor=8, kind='required-guard')
     for e, x in effs:
@@ -31,7 +39,7 @@ def check(cx):
             continue
         desc = '%s %s' % (x['op'], show_term(x['place'])[:60])
         r1.instance(desc)
-        ok, m = entails(e.pc, G)
+        ok, m = entails(e.pc, G, AX)
         wg = [g for g in e.guards if g[0] == 'write']
         if not ok or not wg:
             r1.violation('process_nick|unguarded|%s' % desc, 'a nick change effect (%s) can happen although the new nick is taken / equals '
@@ -51,10 +59,19 @@ def check(cx):
             removed = ('some_of', ('call', e.data['callee'], USERS, CONN_NICK))
     r2.instance('registry: remove(old) + insert(new, the same User value)')
     ins = [(e, x) for e, x in effs if x['op'] == 'insert' and x['place'] == USERS]
-    if removed is None or len(ins) != 1 or ins[0][1]['args'] != [NEW, removed] or not equivalent(ins[0][0].pc, G)[0]:
+    # GR: the condition under which the handler moves the registry entry.  That it is exactly "registered, different, free" is this
+    # property's own business (R15.1 accept-condition); that everything else moves *together with it* is what the re-key census says
+    # and what other properties import.
+    GR = ins[0][0].pc if len(ins) == 1 else G
+    rm_ = [e for e, x in effs if x['op'] == 'remove' and x['place'] == USERS and x['args'][:1] == [CONN_NICK]]
+    if removed is None or len(ins) != 1 or ins[0][1]['args'] != [NEW, removed] or not entails(GR, Or(*[e.pc for e in rm_]))[0]:
         r2.violation('process_nick|rekey|VolatileState.users', 'the registry entry is not moved as a whole (remove old, insert the removed value '
                      'under the new nick)', loc=fn)
         removed = removed or ('?',)
+    r1.instance('the registry entry is moved exactly for an accepted change')
+    if not equivalent(GR, G)[0]:
+        r1.violation('process_nick|accept-condition', 'the handler does not carry out exactly the nick changes of registered users to a '
+                     'different, free nick (condition %s)' % show(GR)[:120], loc=fn)
     own_chans = ('elem', field(removed, 'channels'))
     CH = chan(own_chans)
     rekeyed = {}
@@ -72,7 +89,7 @@ def check(cx):
         short = sp.split('::')[-1]
         r2.instance('re-key of %s.%s' % (short, fname))
         if short == 'ChannelModes':
-            if len(mren) != 1 or not equivalent(mren[0][0].pc, G)[0]:
+            if len(mren) != 1 or not equivalent(mren[0][0].pc, GR)[0]:
                 r2.violation('process_nick|rekey|%s.%s' % (short, fname), 'rank set %s is not re-keyed in every channel of the user' % fname, loc=fn)
             continue
         if rekeyed.get(fname) != {'remove', 'insert'}:
@@ -81,7 +98,7 @@ def check(cx):
     # channel member entries are re-keyed in *every* own channel
     cm = [(e, x) for e, x in effs if x['op'] == 'insert' and x['place'] == field(CH, 'users') and x['args'][:1] == [NEW]]
     r2.instance('member entry moved in every own channel with its rank record')
-    okc = len(cm) == 1 and 'remove' in repr(cm[0][1]['args'][1]) and equivalent(cm[0][0].pc, G)[0]
+    okc = len(cm) == 1 and 'remove' in repr(cm[0][1]['args'][1]) and equivalent(cm[0][0].pc, GR)[0]
     if not okc:
         r2.violation('process_nick|rekey|member-entries', 'member entries are not moved (with their rank record) in every channel of the user', loc=fn)
     # WALLOPS set: iff present
@@ -99,31 +116,31 @@ def check(cx):
     for e, x in wr:
         f = _wnorm(e.pc)
         if x['op'] == 'remove':
-            okw = okw and (equivalent(f, And(G, wh))[0] or equivalent(f, G)[0])
+            okw = okw and (equivalent(f, And(GR, wh))[0] or equivalent(f, GR)[0])
         else:
-            okw = okw and equivalent(f, And(G, wh))[0]
+            okw = okw and equivalent(f, And(GR, wh))[0]
     if not okw:
         # which way it is wrong matters to the properties that import this rule: an entry left behind under the old nick (or
         # inserted for a refused change) names a nick that is not registered; an entry dropped too often does not
         rm = [e for e, x in wr if x['op'] == 'remove']
         ins_ = [e for e, x in wr if x['op'] == 'insert']
         kind_ = 'other'
-        if not rm or not entails(And(G, wh), Or(*[_wnorm(e.pc) for e in rm]))[0]:
+        if not rm or not entails(And(GR, wh), Or(*[_wnorm(e.pc) for e in rm]))[0]:
             kind_ = 'stale'
-        elif ins_ and not all(entails(_wnorm(e.pc), G)[0] for e in ins_):
+        elif ins_ and not all(entails(_wnorm(e.pc), GR)[0] for e in ins_):
             kind_ = 'spurious-insert'
         r2.violation('process_nick|rekey|wallops-condition|' + kind_, 'WALLOPS membership is not moved exactly when the old nick was in the set',
                      loc=fn)
     hist = [(e, x) for e, x in effs if x['op'] == 'insert_to_nick_history']
     r2.instance('WHOWAS record under the old nick')
     if len(hist) != 1 or hist[0][1]['args'][0] != CONN_NICK or 'history_entry' not in repr(hist[0][1]['args'][1]) \
-            or not equivalent(hist[0][0].pc, G)[0]:
+            or not equivalent(hist[0][0].pc, GR)[0]:
         r2.violation('process_nick|whowas', 'the old nick is not recorded for WHOWAS with the user\'s history entry', loc=fn)
     setn = [e for e in w.events if is_call(e, 'set_nick') and e.data['args'][0] == USTATE and e.data['args'][1] == NEW
             and sat(And(e.pc, auth)) is not None]
     upd = [e for e in w.events if is_call(e, 'update_nick') and e.data['args'][0] == removed and e.data['args'][1] == USTATE]
     r2.instance('connection nick and user source string updated')
-    if len(setn) != 1 or len(upd) != 1 or not equivalent(setn[0].pc, G)[0] or upd[0].seq < setn[0].seq:
+    if len(setn) != 1 or len(upd) != 1 or not equivalent(setn[0].pc, GR)[0] or upd[0].seq < setn[0].seq:
         r2.violation('process_nick|identity-strings', 'the connection\'s nick / the user\'s source string are not updated (set_nick then '
                      'update_nick on the moved user)', loc=fn)
 
@@ -163,7 +180,7 @@ def check(cx):
     else:
         e, s = good[0]
         f = subst(e.pc, ('is', ('get', USERS, allk), 'Some'), True)
-        if not equivalent(f, G)[0]:
+        if not equivalent(f, GR)[0]:
             r3.violation('process_nick|announcement-condition', 'the announcement is filtered or sent for refused changes', loc=cx.loc(e.node))
         if ins and e.seq < ins[0][0].seq:
             r3.violation('process_nick|announcement-before-insert', 'the announcement happens before the user is back in the registry: the '
